@@ -60,9 +60,20 @@ structure BedRow where
   ncopies : Int
 deriving Repr, DecidableEq, Inhabited
 
-/-- `segments["cn"] if "cn" in segments else absolute_pure(...).round().astype("int")`;
-    `absolute_pure` takes the reference copies from the chromosome *name* only -/
-def ncopiesBed (cfg : Cfg) (r : Seg) : Int :=
+/-- the copy number both exporters state: `segments["cn"]` when the table has that column, else
+    `absolute_clonal(segments, ploidy, 1.0, ...)` / `absolute_dataframe(...)["absolute"]` rounded
+    half-even: `r * 2^log2` with `r` the reference copies of the segment's class (naming style of the
+    first row, PAR).  (Repaired code, fix U: `export_bed` used to take `r` from the chromosome name
+    alone, `ncopiesBedPrefix`.) -/
+def ncopiesOf (cfg : Cfg) (first : String) (r : Seg) : Int :=
+  if cfg.hasCn then r.cn
+  else
+    let re := refExpect cfg.ploidy cfg.hapX cfg.female (classOf first cfg.par r.chrom r.s r.e)
+    roundHE (absoluteOf re.1 re.2 (some 1) r.t)
+
+/-- `export_bed` before fix U: `absolute_pure(segments, ploidy, is_haploid_x_reference)` knows
+    nothing of the PAR genome the same call uses for the expected copies -/
+def ncopiesBedPrefix (cfg : Cfg) (r : Seg) : Int :=
   if cfg.hasCn then r.cn
   else roundHE ((refCopiesPure r.chrom cfg.ploidy cfg.hapX : Rat) * r.t)
 
@@ -72,8 +83,8 @@ def bedLabel (label : Option String) (r : Seg) : String :=
   | some l => if l.isEmpty then r.gene else l
   | none => r.gene
 
-def bedRowOf (cfg : Cfg) (label : Option String) (r : Seg) : BedRow :=
-  { chrom := r.chrom, s := r.s, e := r.e, label := bedLabel label r, ncopies := ncopiesBed cfg r }
+def bedRowOf (cfg : Cfg) (first : String) (label : Option String) (r : Seg) : BedRow :=
+  { chrom := r.chrom, s := r.s, e := r.e, label := bedLabel label r, ncopies := ncopiesOf cfg first r }
 
 /-- boolean-mask row selection `frame[mask]` -/
 def maskSelect {α} : List α → List Bool → List α
@@ -82,7 +93,7 @@ def maskSelect {α} : List α → List Bool → List α
 
 /-- `export_bed`: build the five columns, then drop rows by the `show` mode -/
 def exportBed (cfg : Cfg) (label : Option String) (sh : ShowMode) (rows : List Seg) : List BedRow :=
-  let out := rows.map (bedRowOf cfg label)
+  let out := rows.map (bedRowOf cfg (firstChrom rows) label)
   match sh with
   | .all => out
   | .ploidy => maskSelect out (out.map (fun b => b.ncopies != (cfg.ploidy : Int)))
@@ -123,14 +134,6 @@ structure VcfCols where
   format : List String
 deriving Repr, Inhabited
 
-/-- without a `cn` column: `absolute_dataframe(segments, ploidy, 1.0, ...)["absolute"].round()`;
-    reference and expected copies come from the class table (naming style of the first row, PAR) -/
-def ncopiesVcf (cfg : Cfg) (first : String) (r : Seg) : Int :=
-  if cfg.hasCn then r.cn
-  else
-    let re := refExpect cfg.ploidy cfg.hapX cfg.female (classOf first cfg.par r.chrom r.s r.e)
-    roundHE (absoluteOf re.1 re.2 (some 1) r.t)
-
 /-- with a `cn` column `abs_expect = absolute_expect(...)`, else the `expect` column of the same
     dataframe the absolute value came from -/
 def expectVcf (cfg : Cfg) (first : String) (r : Seg) : Int :=
@@ -138,7 +141,7 @@ def expectVcf (cfg : Cfg) (first : String) (r : Seg) : Int :=
   else ((refExpect cfg.ploidy cfg.hapX cfg.female (classOf first cfg.par r.chrom r.s r.e)).2 : Nat)
 
 def vcfCols (cfg : Cfg) (first : String) (r : Seg) : VcfCols :=
-  let nc := ncopiesVcf cfg first r
+  let nc := ncopiesOf cfg first r
   let ex := expectVcf cfg first r
   let loss := decide (nc < ex)
   { seg := r
@@ -280,26 +283,45 @@ deriving Repr, DecidableEq, Inhabited
 def log2Col (sm : BinSample) : List Cell := sm.bins.map (fun b => Cell.num b.v)
 def labelCol (sm : BinSample) : List Cell := sm.bins.map (fun b => Cell.str (labelWithGene b))
 
-/-- the loop of `merge_samples` over the second and later samples -/
-def mergeLoop : Frame → Nat → List BinSample → Except MergeErr Frame
-  | f, _, [] => .ok f
-  | f, k, sm :: rest =>
+/-- the loop of `merge_samples` over the second and later samples; `labels` is
+    `out_table["label"]`, `cols` the sample columns collected so far (repaired code, fix V: they
+    are kept apart from the five bin columns, so a sample named "gene" or "start" is still a sample) -/
+def mergeLoop (labels : List Cell) : Frame → Nat → List BinSample → Except MergeErr Frame
+  | cols, _, [] => .ok cols
+  | cols, k, sm :: rest =>
     -- `len(cnarr) == len(out_table) and (label_with_gene(cnarr) == out_table["label"]).all()`
-    if (f.col "label") != some (labelCol sm) then .error (.mismatch k)
-    else if f.has sm.id then .error (.duplicate sm.id)
-    else mergeLoop (f.set sm.id (log2Col sm)) (k + 1) rest
+    if labels != labelCol sm then .error (.mismatch k)
+    else if cols.has sm.id then .error (.duplicate sm.id)
+    else mergeLoop labels (cols ++ [(sm.id, log2Col sm)]) (k + 1) rest
 
-/-- `merge_samples` (at least one file) -/
+/-- the five bin columns of the merged table -/
+def binCols (first : BinSample) : Frame :=
+  [("chromosome", first.bins.map (fun b => Cell.str b.chrom)),
+   ("start", first.bins.map (fun b => Cell.int b.s)),
+   ("end", first.bins.map (fun b => Cell.int b.e)),
+   ("gene", first.bins.map (fun b => Cell.str b.gene)),
+   ("label", labelCol first)]
+
+/-- `merge_samples` (at least one file): bin columns, then one column per sample -/
 def mergeSamples : List BinSample → Except MergeErr Frame
   | [] => .ok []
   | first :: rest =>
-    let f0 : Frame :=
-      [("chromosome", first.bins.map (fun b => Cell.str b.chrom)),
-       ("start", first.bins.map (fun b => Cell.int b.s)),
-       ("end", first.bins.map (fun b => Cell.int b.e)),
-       ("gene", first.bins.map (fun b => Cell.str b.gene))]
-    let f1 := (f0.set "label" (labelCol first)).set first.id (log2Col first)
-    mergeLoop f1 1 rest
+    match mergeLoop (labelCol first) [(first.id, log2Col first)] 1 rest with
+    | .ok cols => .ok (binCols first ++ cols)
+    | .error e => .error e
+
+/-- `merge_samples` before fix V: every sample column was written into the one table *by name*
+    (`out_table[sample_id] = log2`), after the five bin columns -/
+def mergeLoopPrefix : Frame → Nat → List BinSample → Except MergeErr Frame
+  | f, _, [] => .ok f
+  | f, k, sm :: rest =>
+    if (f.col "label") != some (labelCol sm) then .error (.mismatch k)
+    else if f.has sm.id then .error (.duplicate sm.id)
+    else mergeLoopPrefix (f.set sm.id (log2Col sm)) (k + 1) rest
+
+def mergeSamplesPrefix : List BinSample → Except MergeErr Frame
+  | [] => .ok []
+  | first :: rest => mergeLoopPrefix ((binCols first).set first.id (log2Col first)) 1 rest
 
 /-- number of rows of a frame (all columns are equally long) -/
 def Frame.nrows (f : Frame) : Nat := (f.head?.map (·.2.length)).getD 0
@@ -310,6 +332,14 @@ def rowsOf (n : Nat) (cols : List (List Cell)) : List (List Cell) :=
 
 /-- `fmt_jtv`: (header, rows) -/
 def fmtJtv (ids : List String) (f : Frame) : List String × List (List Cell) :=
+  let n := f.nrows
+  let name := ((f[4]?).map (·.2)).getD []      -- `table.iloc[:, 4]`
+  let rest := (List.drop 5 f).map (·.2)        -- `table.iloc[:, 5:]`
+  (["CloneID", "Name"] ++ ids,
+   rowsOf n ([List.replicate n (Cell.str "IMAGE:"), name] ++ rest))
+
+/-- `fmt_jtv` before fix V: bin columns found and dropped *by name* -/
+def fmtJtvPrefix (ids : List String) (f : Frame) : List String × List (List Cell) :=
   let n := f.nrows
   let name := (f.col "label").getD []
   let rest := (f.drop reservedCols).map (·.2)
@@ -324,8 +354,8 @@ def zfill3 (i : Nat) : String :=
 /-- `fmt_cdt`: (header, rows); the first two rows are the AID / EWEIGHT header rows -/
 def fmtCdt (ids : List String) (f : Frame) : List String × List (List Cell) :=
   let n := f.nrows
-  let name := (f.col "label").getD []
-  let rest := (f.drop reservedCols).map (·.2)
+  let name := ((f[4]?).map (·.2)).getD []
+  let rest := (List.drop 5 f).map (·.2)
   let gid := (List.range n).map (fun i => Cell.str ("GENE" ++ toString i ++ "X"))
   let clid := (List.range n).map (fun i => Cell.str ("IMAGE:" ++ toString i))
   let header2 := (["AID", "", "", ""] ++ (List.range ids.length).map (fun i => "ARRY" ++ zfill3 i ++ "X")).map Cell.str
@@ -354,19 +384,19 @@ def expectedCopies (cfg : Cfg) (first : String) (r : Seg) : Int :=
 def bedKeep (cfg : Cfg) (first : String) (sh : ShowMode) (r : Seg) : Bool :=
   match sh with
   | .all => true
-  | .ploidy => ncopiesBed cfg r != (cfg.ploidy : Int)
-  | .variant => ncopiesBed cfg r != expectedCopies cfg first r
+  | .ploidy => ncopiesOf cfg first r != (cfg.ploidy : Int)
+  | .variant => ncopiesOf cfg first r != expectedCopies cfg first r
 
 def bedSpec (cfg : Cfg) (label : Option String) (sh : ShowMode) (rows : List Seg) : List BedRow :=
-  (rows.filter (bedKeep cfg (firstChrom rows) sh)).map (bedRowOf cfg label)
+  (rows.filter (bedKeep cfg (firstChrom rows) sh)).map (bedRowOf cfg (firstChrom rows) label)
 
 /-- VCF: a segment is reported iff its copy number differs from the expected one -/
 def vcfKeep (cfg : Cfg) (first : String) (r : Seg) : Bool :=
-  ncopiesVcf cfg first r != expectedCopies cfg first r
+  ncopiesOf cfg first r != expectedCopies cfg first r
 
 /-- the record the property describes for a reported segment -/
 def vcfRecOf (cfg : Cfg) (first : String) (r : Seg) : VcfRec :=
-  let nc := ncopiesVcf cfg first r
+  let nc := ncopiesOf cfg first r
   let loss := decide (nc < expectedCopies cfg first r)
   let ty := if loss then "DEL" else "DUP"
   { chrom := r.chrom, pos := if r.s = 0 then 1 else r.s, id := ".", ref := "N",
